@@ -12,10 +12,19 @@ import sys
 import time
 
 VERIF = os.path.dirname(os.path.dirname(os.path.abspath(__file__)))
-REPO = os.environ.get("VERIF_REPO", "/repo")
-WORK = os.path.join(VERIF, ".work")
-COQ = os.path.join(VERIF, "coq")
-SHM = "/dev/shm/walrus-verif"
+# Normal runs decide /repo and write into /verif.  For experiments on a scratch worktree of
+# the repository (seeded changes, several at once) set VERIF_REPO=<worktree>: every build
+# product, the Coq tree (a private copy, since gen/Consts.v is regenerated from the sources),
+# the evidence and the replay files then live under <worktree>/.vwork and /verif is not written.
+REPO = os.path.realpath(os.environ.get("VERIF_REPO", "/repo"))
+ALT = REPO != "/repo"
+WORK = os.path.join(REPO, ".vwork") if ALT else os.path.join(VERIF, ".work")
+COQ = os.path.join(WORK, "coq") if ALT else os.path.join(VERIF, "coq")
+EVIDENCE = os.path.join(WORK, "evidence") if ALT else os.path.join(VERIF, "evidence")
+SHM = "/dev/shm/walrus-verif" + ("-" + hashlib.sha256(REPO.encode()).hexdigest()[:8] if ALT else "")
+if ALT:
+    os.makedirs(WORK, exist_ok=True)
+    subprocess.run(["rsync", "-a", "--delete", os.path.join(VERIF, "coq") + "/", COQ + "/"], check=True)
 NPROC = 16
 
 ENV = dict(os.environ)
@@ -315,8 +324,27 @@ def build_rust(crate, cfgs=("walrus_verif",), release=False, bin_name=None):
     env["RUSTFLAGS"] = " ".join("--cfg " + c for c in cfgs) + " -Awarnings"
     cmd = ["cargo", "build", "--offline", "-q"] + (["--release"] if release else [])
     with Lock("cargo-" + tag):
-        sh(cmd, cwd=os.path.join(VERIF, "harness", crate), env=env, timeout=1800)
+        sh(cmd, cwd=os.path.join(harness_root(), crate), env=env, timeout=1800)
     return os.path.join(tdir, "release" if release else "debug", bin_name or crate)
+
+
+def harness_root():
+    """harness/ as is for /repo; for VERIF_REPO runs a copy whose /repo paths (Cargo path
+    dependency, #[path] includes) point at the scratch worktree."""
+    src = os.path.join(VERIF, "harness")
+    if not ALT:
+        return src
+    dst = os.path.join(WORK, "harness")
+    sh(["rsync", "-a", "--delete", "--exclude", "target", src + "/", dst + "/"])
+    for root, _, files in os.walk(dst):
+        for fn in files:
+            if fn.endswith((".rs", ".toml")):
+                pth = os.path.join(root, fn)
+                txt = open(pth).read()
+                new = txt.replace('"/repo/', '"%s/' % REPO).replace('path = "/repo"', 'path = "%s"' % REPO)
+                if new != txt:
+                    open(pth, "w").write(new)
+    return dst
 
 
 def run_lines(exe_args, lines, timeout=900, env=None, cwd=None):
@@ -392,12 +420,12 @@ def write_replay(prop, obj):
 
 
 def write_evidence(prop, tier, seed, coverage, assumptions, wall, violations):
-    os.makedirs(os.path.join(VERIF, "evidence"), exist_ok=True)
+    os.makedirs(EVIDENCE, exist_ok=True)
     ev = dict(property_id=prop, tier=tier, seed=seed, level="proof", coverage=coverage,
               assumptions=assumptions, wall_s=round(wall, 2), violations=violations)
-    tmp = os.path.join(VERIF, "evidence", prop + ".json.tmp")
+    tmp = os.path.join(EVIDENCE, prop + ".json.tmp")
     json.dump(ev, open(tmp, "w"), indent=1, sort_keys=True)
-    os.replace(tmp, os.path.join(VERIF, "evidence", prop + ".json"))
+    os.replace(tmp, os.path.join(EVIDENCE, prop + ".json"))
 
 
 TRUSTED_BASE_COMMON = [
